@@ -447,6 +447,10 @@ def mod_fold(mod, e):
 def r4_padding(rep, src):
     f = src.func('%s:ArFile.__collect_members' % M)
     rep.saw_func(f)
+    # private helpers -- including a generator that walks the headers -- are fused into the function
+    fnode, _inl = normalize.inline_helpers(f, depth=2)
+    set_parents(fnode)
+    f = Func(f.module, fnode, f.qual, f.cls)
     loops = [l for l in normalize.sentinel_loops(f.node) if 'from_file' in norm(l.producer.func)]
     if len(loops) != 1:
         raise AnalysisError('%s: expected one member loop (a producer loop over ArMember.from_file)' % f.site)
@@ -529,14 +533,16 @@ def r4_padding(rep, src):
                      '(expected size + %d): the next header is read from the wrong place' % (adv[0], adv[1], 'odd' if p else 'even', p), where=f.where)
     # listing: append and index assignment are unconditional statements of the loop body, in this order of members
     tops = [norm(s) for s in loop.body]
+    names = {var} | {s.targets[0].id for s in loop.body if isinstance(s, ast.Assign) and len(s.targets) == 1 and isinstance(s.targets[0], ast.Name)
+                     and norm(s.value) == var}       # plain aliases of the loop's member inside one iteration
     app = [t for t in tops if t.startswith('self.__members.append(')]
     idx = [s for s in loop.body if isinstance(s, ast.Assign) and isinstance(s.targets[0], ast.Subscript)
            and norm(s.targets[0].value) == 'self.__members_dict']
-    if len(app) == 1 and app[0] == 'self.__members.append(%s)' % var:
+    if len(app) == 1 and app[0] in ['self.__members.append(%s)' % v_ for v_ in names]:
         rep.ok('C06.R6', f.site, 'members listed in archive order', 'unconditional append in the walk loop')
     else:
         rep.fail('C06.R6', f.site, 'members listed in archive order', 'members are not appended unconditionally in walk order', where=f.where)
-    if len(idx) == 1 and norm(idx[0].targets[0].slice) == var + '.name' and norm(idx[0].value) == var:
+    if len(idx) == 1 and norm(idx[0].targets[0].slice) in [v_ + '.name' for v_ in names] and norm(idx[0].value) in names:
         rep.ok('C06.R6', f.site, 'name lookup: last member wins', 'unconditional self.__members_dict[name] = member')
     else:
         rep.fail('C06.R6', f.site, 'name lookup: last member wins', 'the name index is not overwritten by later members of the same name', where=f.where)
